@@ -9,7 +9,7 @@ EXPLANATION = ("Over everything reachable inside gix-ref, gix-lock, gix-tempfile
                "empty-directory removal; no fs::write / File::create / fs::copy / direct fs::rename exists on a ref or packed-refs path. Ordering: in the "
                "update loop the reflog call cannot come after the lock commit of the same edit; deleting a loose ref file is unreachable without first "
                "passing the packed-transaction commit point, is unreachable from its Err edge, and the packed commit is unreachable after a deletion. "
-               "The state after an actual crash depends on rename atomicity of the OS and is not decided.")
+               "Nothing in gix-tempfile's persist closure removes, renames or truncates the destination besides tempfile's own rename. The state after an actual crash depends on rename atomicity of the OS and is not decided.")
 FS = re.compile(r"(^std::fs::(write|rename|remove_file|remove_dir|remove_dir_all|create_dir|create_dir_all|copy|hard_link|set_permissions|soft_link)$|"
                 r"^std::fs::File::(create|create_new|set_len|options)$|fs::OpenOptions::open$|unix::fs::symlink$|^tempfile::.*::persist(_noclobber)?$|^tempfile::.*::keep$)")
 # callee pattern -> functions allowed to call it (regex on caller name), with the reason
